@@ -259,8 +259,8 @@ def check_loop(c, rec):
 
 def subchecks():
     return [SubCheck("graphs", check_graph, lambda: graph_cases(DEPTHS_Q), quick=14, thorough=0, shards_quick=8, shards_thorough=1),
-            SubCheck("graphs_deep", check_graph, lambda: graph_cases(DEPTHS_T), quick=0, thorough=40, shards_quick=1, shards_thorough=16),
-            SubCheck("cost", check_cost, cost_cases, quick=8, thorough=12, shards_quick=3, shards_thorough=4),
+            SubCheck("graphs_deep", check_graph, lambda: graph_cases(DEPTHS_T), quick=0, thorough=100, shards_quick=1, shards_thorough=16),
+            SubCheck("cost", check_cost, cost_cases, quick=8, thorough=30, shards_quick=3, shards_thorough=8),
             SubCheck("untracked_loops", check_loop, lambda: loop_cases([10, 100, 1000, 3000]), quick=25, thorough=0, shards_quick=4),
-            SubCheck("untracked_loops_long", check_loop, lambda: loop_cases([1000, 3000, 10000]), quick=0, thorough=40,
+            SubCheck("untracked_loops_long", check_loop, lambda: loop_cases([1000, 3000, 10000]), quick=0, thorough=100,
                      shards_quick=1, shards_thorough=8)]
